@@ -72,6 +72,7 @@ static void harness() {
       // good final states: x0 <= G at the exit, G symbolic
       dom_t post = top;
       sx::term G = sx::fresh("G");
+      if (P.range > 0) sx::assume(G >= sx::term(-2 * P.range) && G <= sx::term(8 * P.range)); // machine-weight domains concretise every constant
       post += lcsts_t(lcst_t(lexp_t(P.vars[0]) - lexp_t(G.num()), lcst_t::INEQUALITY));
       B.run_backward(post);
       bool completed = false;
